@@ -213,14 +213,18 @@ fn gen_impl_delegation_trait_defs(
                 },
             );
             for trait_fn in trait_copy.fns.iter_mut() {
-                if !matches!(trait_fn.sig().inputs.first(), Some(syn::FnArg::Receiver(_))) {
-                    continue;
-                }
+                let lifetime = match trait_fn.sig().inputs.first() {
+                    Some(syn::FnArg::Receiver(receiver)) => receiver
+                        .reference
+                        .as_ref()
+                        .and_then(|(_, lifetime)| lifetime.clone()),
+                    _ => continue,
+                };
 
                 trait_fn.entrait_sig.sig.inputs.insert(
                     1,
                     syn::parse_quote! {
-                        __impl: &::#entrait::Impl<EntraitT>
+                        __impl: & #lifetime ::#entrait::Impl<EntraitT>
                     },
                 );
             }
